@@ -286,6 +286,20 @@ def run_corpus(pid, name, scheds, verdict, shards=8, light=False, net="regtest",
     rejs, validated, runs_ok, states = validate_traces(name, traces_p, by_run)
     t2 = time.time()
     other = []
+    if pid == "C10":
+        # C10 is differential too: a run that is rejected WITH its read requests (at whatever later call the damage surfaced) and
+        # accepted WITHOUT them shows that a read changed state
+        READS = ("ethcall", "estimate", "callmany", "getlogs")
+        cand = [rj for rj in rejs if "C10" not in rj["props"] and rj.get("schedule") and any(st.get("op") in READS for st in rj["schedule"])]
+        if cand:
+            variants = [[st for st in rj["schedule"] if st.get("op") not in READS] for rj in cand[:12]]
+            tp2, sp2, _ = play(name + "_noreads", variants, shards=min(shards, len(variants)), light=light, net=net, traces=traces)
+            rej2, _, _, _ = validate_traces(name + "_noreads", tp2, {i + 1: vsched for i, vsched in enumerate(variants)})
+            bad_runs = set(r["run"] for r in rej2)
+            for i, rj in enumerate(cand[:12]):
+                if (i + 1) not in bad_runs:
+                    rj["props"] = sorted(set(rj["props"]) | {"C10"})
+                    rj["signature"] = "read-observable:" + rj["signature"]
     if pid == "C03":
         # C03 is differential by nature: a run that is rejected WITH its commits but accepted WITHOUT them shows that the
         # commit placement is observable, whatever the event at which the difference surfaced
